@@ -2,7 +2,7 @@
 (* Bounded model of the C16 state machine of ResultAlg: the initial stores are two objects of one family (class, shape,
    tensor rank, real / complex data, declared transforms) with integer data patterns; the operators are applied in every
    possible way up to MaxOps operations. *)
-EXTENDS ResultAlg
+EXTENDS ResultAlg, SequencesExt
 
 CONSTANTS FamIds,        \* which families start a behaviour
           PatPairs,      \* set of <<p, q>> : data patterns of the two initial objects
@@ -21,13 +21,15 @@ T_swap     == [factor |-> 1,  conj |-> FALSE, tr |-> <<>>, sw |-> <<-2, -1>>]
 I3  == <<<<1, 0, 0>>, <<0, 1, 0>>, <<0, 0, 1>>>>
 RC4z == <<<<0, -1, 0>>, <<1, 0, 0>>, <<0, 0, 1>>>>
 RC2x == <<<<1, 0, 0>>, <<0, -1, 0>>, <<0, 0, -1>>>>
-AllSyms == [ Identity     |-> [R |-> I3,   TR |-> FALSE, Inv |-> FALSE, order |-> 1],
-             Inversion    |-> [R |-> I3,   TR |-> FALSE, Inv |-> TRUE,  order |-> 2],
-             TimeReversal |-> [R |-> I3,   TR |-> TRUE,  Inv |-> FALSE, order |-> 2],
-             C4z          |-> [R |-> RC4z, TR |-> FALSE, Inv |-> FALSE, order |-> 4],
-             Mx           |-> [R |-> RC2x, TR |-> FALSE, Inv |-> TRUE,  order |-> 2],
-             TRMx         |-> [R |-> RC2x, TR |-> TRUE,  Inv |-> TRUE,  order |-> 2] ]
+AllSyms == [ Identity     |-> MkSym(I3, FALSE, FALSE, 1, 2),
+             Inversion    |-> MkSym(I3, FALSE, TRUE, 2, 2),
+             TimeReversal |-> MkSym(I3, TRUE, FALSE, 2, 2),
+             C4z          |-> MkSym(RC4z, FALSE, FALSE, 4, 2),
+             Mx           |-> MkSym(RC2x, FALSE, TRUE, 2, 2),
+             TRMx         |-> MkSym(RC2x, TRUE, TRUE, 2, 2) ]
 MCSyms == [g \in SymSel |-> AllSyms[g]]
+(* the harness compares the real PointSymmetry objects with this table *)
+ASSUME \A g \in DOMAIN AllSyms : PrintT(<<"SYM", g, AllSyms[g].TR, AllSyms[g].Inv>>) /\ PrintT(<<"SYMR", g, AllSyms[g].R>>)
 
 (* families *)
 Fam == ( 1 :> [kind |-> "E", shape |-> <<2>>,    rank |-> 0, cplx |-> FALSE, tTR |-> T_ident,    tInv |-> T_ident]
@@ -40,7 +42,9 @@ Fam == ( 1 :> [kind |-> "E", shape |-> <<2>>,    rank |-> 0, cplx |-> FALSE, tTR
       @@ 8 :> [kind |-> "K", nk |-> 1, nb |-> 1, rank |-> 2, cplx |-> TRUE,  tTR |-> T_odd_trans, tInv |-> T_odd]
       @@ 9 :> [kind |-> "D", sub |-> [x |-> 2, y |-> 7], voids |-> <<{}, {}>>]
       @@ 10 :> [kind |-> "D", sub |-> [x |-> 1, y |-> 6], voids |-> <<{"y"}, {}>>]
-      @@ 11 :> [kind |-> "D", sub |-> [x |-> 3, y |-> 3], voids |-> <<{"x"}, {"y"}>>] )
+      @@ 11 :> [kind |-> "D", sub |-> [x |-> 3, y |-> 3], voids |-> <<{"x"}, {"y"}>>]
+         (* the two initial objects hold the same number of k-points in differently split data_list *)
+      @@ 12 :> [kind |-> "K", nk |-> 2, nb |-> 1, rank |-> 0, cplx |-> FALSE, tTR |-> T_ident,    tInv |-> T_ident, split |-> <<<<1, 1>>, <<2>>>>] )
 
 (* integer data patterns: pattern 1 is even (so that / 2 applies), patterns >= 4 are unit arrays *)
 PatEntry(n, p, len, cplx) ==
@@ -64,12 +68,15 @@ Obj1(f, n) ==   \* object number n of the non-dictionary family f
 ObjOf(f, n, which) ==   \* which = 1, 2 : position in the initial store (dictionary families have per-position Void entries)
    IF Fam[f].kind = "D"
    THEN MkD([k \in DOMAIN Fam[f].sub |-> IF k \in Fam[f].voids[which] THEN Void ELSE Obj1(Fam[f].sub[k], n)])
+   ELSE IF "split" \in DOMAIN Fam[f] THEN [Obj1(f, n) EXCEPT !.chunks = Fam[f].split[which]]
    ELSE Obj1(f, n)
 
 ScalarsA == {-1, 2}
 PairsA == {<<1, 2>>}
-PairsB == {<<1, 2>>, <<2, 3>>, <<4, 1>>, <<2, 5>>}
+PairsB == {<<1, 2>>, <<2, 3>>, <<4, 1>>}
 PairsC == {<<p, q>> : p, q \in 1..6}
 ScalarsB == {-1, 2, 3}
-MCInitStores == { <<ObjOf(f, pq[1], 1), ObjOf(f, pq[2], 2)>> : f \in FamIds, pq \in PatPairs }
+StartSet == {<<f, pq>> : f \in FamIds, pq \in PatPairs}
+StartSeq == SetToSeq(StartSet)          \* TLC: a fixed enumeration order
+MCInitStores == [k \in 1..Len(StartSeq) |-> <<ObjOf(StartSeq[k][1], StartSeq[k][2][1], 1), ObjOf(StartSeq[k][1], StartSeq[k][2][2], 2)>>]
 =============================================================================
